@@ -224,16 +224,23 @@ def JKvs.find : JKvs → Str → Option J
 
 def splitKey : Str := [0x73, 0x70, 0x6C, 0x69, 0x74]  -- "split"
 
+/-- The type at which the operand of a split is converted: an argument split
+over a map is a `map<T>` of the parameter's type `T` (an array operand needs
+no adjustment: `fix` saturates `arrayDim` at 0). -/
+def splitSourceType (t : TypeId) : J → TypeId
+  | .obj _ => if t.mapDim = 0 then ⟨t.base, 0, t.arrayDim + 1⟩ else t
+  | _ => t
+
 /-- One binding of `BuildCallAst`: an argument listed in `splitargs` must be
-`{"split": v}`; `v` is converted at the parameter's type and the result is a
-`SplitExp` (`convertToExp` returns a bare `NullExp` for `v = null`, which
-`BuildCallAst` wraps again). -/
+`{"split": v}`; `v` is converted at the collection type over the parameter's
+type and the result is a `SplitExp` (`convertToExp` returns a bare `NullExp`
+for `v = null`, which `BuildCallAst` wraps again). -/
 def buildBinding (split : Bool) (t : TypeId) (j : J) : Option Arg :=
   if split then
     match j with
     | .obj kvs =>
       match kvs.find splitKey with
-      | some v => (convert t v).map .split
+      | some v => (convert (splitSourceType t v) v).map .split
       | none => none
     | _ => none
   else (convert t j).map .plain
@@ -440,6 +447,14 @@ def canonData (sig : Sig) (d : Data) : Data :=
             else .lit .null)),
     splitargs := (sig.filter (fun p =>
       d.args.any (fun q => q.1 = p.1) && d.splitargs.contains p.1)).map (·.1) }
+
+/-- Specification-level type of the operand of `x = split e` for a parameter
+of type `t`: `T[]` for an array operand, `map<T>` for a map operand (no map of
+maps), anything for `null`. -/
+def collectionType (t : TypeId) : Exp → TypeId
+  | .arr _ => ⟨t.base, t.arrayDim + 1, t.mapDim⟩
+  | .map _ _ => if t.mapDim = 0 then ⟨t.base, 0, t.arrayDim + 1⟩ else t
+  | .lit _ => t
 
 /-! ## what the MRO grammar can express
 
